@@ -360,11 +360,12 @@ def replay(engine, infile, nshards=None, timeout=30, env=None, rlimit_as=None, r
         t.start()
     for t in ths:
         t.join()
-    # timeouts are retried once in isolation before they count
+    # timeouts are retried once in isolation, with four times the time (a loaded machine is not a hang),
+    # before they count
     confirmed = []
     for idx in out.timeouts:
         res = []
-        rc, inflight, err = _run_child(binary, engine, infile, 0, 1, None, idx, timeout, env, rlimit_as, extra,
+        rc, inflight, err = _run_child(binary, engine, infile, 0, 1, None, idx, timeout * 4, env, rlimit_as, extra,
                                        lambda tag, i, payload: res.append((tag, i, payload)))
         if any(t == "T" for t, _, _ in res) or (rc not in (0,) and not res):
             confirmed.append(idx)
